@@ -43,6 +43,37 @@ CHECKS = {
  "C18": dict(cat="model_checking", tech="TLC: executable Gauss-Jordan in TLA+ checked against the declarative meaning on all matrices <= 4x4; every matrix replayed into f2_algebra; call records judged by TLC",
    text="All 74954 matrices up to 4x4 (exhaustive) plus seeded strata up to 36x24: rref, pivots, rank, basis change and inverse, null space (annihilated, independent, n-rank, exact for n<=10, well-typed when empty), input unchanged.",
    note="TLC; uniqueness of RREF (model-checked up to 3x3); projection of numpy arrays to nested lists", ref="5 (C18)"),
+
+ "C08": dict(cat="model_checking", tech="TLC builder model (all operator lists n=2; strata n<=6) replayed into the APIs; request/config records judged by TLC against ValidStabilizer and the documented configuration set",
+   text="Arbitrary operator lists (valid or not, both formats) and every (entry point, n in 1..8, name) pair: validate() = ValidStabilizer; a returned preparation circuit is for a valid stabilizer and is stabilised by all given operators; "
+        "a returned readout diagonalises all given operators; entry points return iff the pair is one of the 20 advertised ones.",
+   note=TLC_BASE, ref="5 (C08)"),
+ "C10": dict(cat="model_checking", tech="TLA+ measurement semantics + PullBack on the tableau machine; TLC computes exact statistics for the real circuits and judges the real fitters' output as exact rationals",
+   text="Continuum reduced to discrete operator identities (linearity): the real fitter on arbitrary integer count dictionaries for every circuit of every configuration must report sigma*Parity under the key the spec obtains by pulling Z^s back through the readout circuit; "
+        "end to end on TLC-generated stabilizer inputs and integer mixtures all 4^n values equal Tr(rho P).",
+   note=TLC_BASE + "; linearity of the estimator in the counts; the final floating point sum is cross-checked numerically only", ref="5 (C10)"),
+ "C11": dict(cat="model_checking", tech="TLA+ Marginal/Embed semantics; same spec<->code ping-pong as C10 on ordered qubit subsets; CircuitResult judged directly",
+   text="Ordered lists of m qubits of N<=8 registers (asymmetric ones included), both fitters, both full_hilbert_space modes: every value = Tr(rho Embed(P,list)); CircuitResult(counts, qubits) against Marginal for all lists of all N<=4.",
+   note=TLC_BASE + "; linearity (see C10)", ref="5 (C11)"),
+ "C12": dict(cat="model_checking", tech="TLA+ measurement semantics; stabilizer-measurement scenarios judged by TLC",
+   text="(input state, measured stabilizer presentation with arbitrary signs/generators, connectivity): exactly 2^n unsigned keys = the sign-free group, values = Tr(rho P); all signed states of n=2 (n=3 thorough) against their own group, class members n<=6.",
+   note=TLC_BASE + "; linearity (see C10)", ref="5 (C12)"),
+ "C13": dict(cat="model_checking", tech="TLA+ model of caches/aliases/mutations (CacheAlias.tla) with alias facts extracted from the running code; TLC decides Pure, dumps the state graph and random walks; every behaviour replayed in forked cold-cache children",
+   text="TLC decides invariant Pure under the extracted alias relation (a counterexample is the shortest violating history, replayed against the real code); every labelled transition of the abstract state graph and long random histories are replayed with the projected state "
+        "(loaded files, dirty cached fields, purity) compared after each step; results compared with a pristine reference from three fresh interpreters.",
+   note="TLC; generic mutation walker and canonical serialisation in hv/history.py; attribute rebinding on library objects is out of scope (property speaks of lists/circuits/dictionaries)", ref="5 (C13)"),
+ "C14": dict(cat="model_checking", tech="denotations defined in TLA+ (FromChars, FromMatrices, GraphGens, tableau machine); denote records judged by TLC",
+   text="All 1024 signed two-qubit lists, seeded lists n<=6, all 1080 three-qubit states, all graphs n<=5 (n=6 thorough), TLC behaviours as circuits: generator-for-generator equality, exact string round trip and mirror image, signed-group equality for circuits.",
+   note=TLC_BASE, ref="5 (C14)"),
+ "C15": dict(cat="model_checking", tech="predicates defined in TLA+ (span equality, expansion, weight-one elements); pred records judged by TLC",
+   text="All ordered pairs of groups for n=2,3, all groups n=4, class members n=5,6, each with re-mixed generators and random signs: equivalence modulo signs, expansion lists each element once, entanglement of every qubit.",
+   note=TLC_BASE, ref="5 (C15)"),
+ "C16": dict(cat="model_checking", tech="layer existence decided in TLA+ by brute force over the 6^n layers (n<=4) / class keys (n=5,6); layer records judged by TLC; gate word replayed on the tableau machine",
+   text="Every group of n<=4 against graphs of its own and other classes, partial/dependent operator sets, class members n=5,6: None only if no layer exists, exceptions never; returned layers block diagonal, invertible, sound; generated gate word realises the blocks.",
+   note=TLC_BASE + "; n=5,6: existence iff class keys agree (LCGroups)", ref="5 (C16)"),
+ "C19": dict(cat="model_checking", tech="TLC graph machine (all graphs n<=6; LC, toggle, swap) with every transition replayed into Graph; grouping codecs judged against set partitions in TLA+",
+   text="Codec round trips at the documented bit positions, LC involution/faithfulness/class preservation as model invariants; all transitions n<=5 and all LC transitions n=6 replayed; all 13 grouping codecs bijective and block-order independent; class ids re-encode.",
+   note=TLC_BASE, ref="5 (C19)"),
 }
 
 PENDING = {
